@@ -12,7 +12,7 @@ func init() {
 	Register(&PropDef{
 		ID: "C05", Title: "no data message is accepted twice",
 		Config: c05Config, Run: c05Run, MaxSteps: 120,
-		Rule: "runs = encrypted pair on a duplicating, reordering network with an archive of every wire message and fragment; steps duplicate, deliver out of order, replay archived messages (at once, after further traffic and rotations, after End + new AKE), including TLV-only messages (SMP, extra key, disconnect) and fragments; " +
+		Rule: "runs = encrypted pair on a duplicating, reordering network with an archive of every wire message and fragment; steps duplicate, deliver out of order, replay archived messages (at once, after further traffic and rotations, after End + new AKE), including TLV-only messages (SMP, extra key, disconnect) and fragments; in a fifth of the runs the peer is the reference implementation, which also sends what otr3 never sends itself (text together with the IGNORE_UNREADABLE flag, text with TLVs), and copies of accepted messages arrive again; " +
 			"non-trivial = at least 3 re-deliveries of previously accepted messages happened; distinct = distinct step sequences",
 		Assume: []string{"every generated text is unique, so a second delivery of a text is attributable to a re-delivered message"},
 	})
@@ -23,6 +23,7 @@ func c05Config(rc *RunCtx) {
 	r := rc.Rng
 	rc.Cfg["resession"] = r.Intn(2)
 	rc.Cfg["xkey"] = r.Intn(2)
+	rc.Cfg["foreign"] = r.Intn(5) / 4 // a fifth of the runs: the peer is another implementation (see prop_c05foreign.go)
 	if r.Chance(1, 3) {
 		f := []int{100, 200, 1000}[r.Intn(3)]
 		rc.Parties[0].Frag, rc.Parties[1].Frag = f, f
@@ -31,6 +32,9 @@ func c05Config(rc *RunCtx) {
 }
 
 func c05Run(rc *RunCtx) *Violation {
+	if rc.Cfg["foreign"] == 1 {
+		return c05Foreign(rc)
+	}
 	aw, v := newAW(rc)
 	if v != nil {
 		return v
